@@ -2,10 +2,12 @@ package store
 
 import (
 	"bufio"
+	"bytes"
 	"encoding/json"
 	"errors"
 	"fmt"
 	"os"
+	"os/exec"
 	"sync"
 	"sync/atomic"
 	"time"
@@ -140,9 +142,60 @@ func runHistory(node [32]byte, ops []histOp, crashAt int64, keep bool) (res cras
 	return res, nil
 }
 
-func runCrash(w *tracelog.Writer, seed int64, histories, nops, stride int) error {
+// runCrash: every history runs in its own child process (a crash experiment that drops unsynced data abandons a
+// frozen pebble instance; the memory goes back to the system only when the process ends).
+func runCrash(w *tracelog.Writer, out string, seed int64, histories, nops, stride, only int) error {
+	if only < 0 && histories > 1 {
+		par := 4
+		sem := make(chan struct{}, par)
+		var wg sync.WaitGroup
+		errs := make([]error, histories)
+		for h := 0; h < histories; h++ {
+			wg.Add(1)
+			go func(h int) {
+				defer wg.Done()
+				sem <- struct{}{}
+				defer func() { <-sem }()
+				cmd := exec.Command(os.Args[0], "store", "--mode", "crash", "--seed", fmt.Sprint(seed), "--traces", fmt.Sprint(histories), "--ops", fmt.Sprint(nops),
+					"--stride", fmt.Sprint(stride), "--only", fmt.Sprint(h), "--out", fmt.Sprintf("%s.%d", out, h))
+				var buf bytes.Buffer
+				cmd.Stdout, cmd.Stderr = &buf, &buf
+				if err := cmd.Run(); err != nil {
+					errs[h] = fmt.Errorf("crash child %d: %v\n%s", h, err, buf.String())
+				}
+			}(h)
+		}
+		wg.Wait()
+		for h := 0; h < histories; h++ {
+			if errs[h] != nil {
+				return errs[h]
+			}
+			f, err := os.Open(fmt.Sprintf("%s.%d", out, h))
+			if err != nil {
+				return err
+			}
+			sc := bufio.NewScanner(f)
+			sc.Buffer(make([]byte, 1<<20), 1<<28)
+			for sc.Scan() {
+				var m map[string]any
+				if err := json.Unmarshal(sc.Bytes(), &m); err != nil {
+					f.Close()
+					return err
+				}
+				delete(m, "seq")
+				w.Emit(m)
+			}
+			f.Close()
+			os.Remove(fmt.Sprintf("%s.%d", out, h))
+		}
+		return nil
+	}
 	exp := 0
 	for hI := 0; hI < histories; hI++ {
+		if only >= 0 && hI != only {
+			continue
+		}
+		exp = hI * 100000
 		hseed := seed*104729 + int64(hI)
 		node, ops := mkHistory(hseed, nops)
 		base, err := runHistory(node, ops, 0, false)
